@@ -6,9 +6,16 @@ Two population streams go through the *same* real `select`:
 
   * "real": lightweight real agents (DQN, 3-dim Box / Discrete(2), one hidden layer of 4) — this
     is the stream that exercises the real `clone()` (faithful, independent copies);
-  * "stub": duck-typed agents offering exactly what `select` touches (`fitness`, `index`,
-    `clone(index, wrap)`), thousands of selections, populations up to 40 (where numpy's argsort is
-    no longer stable), to cover the ranking / draw / index logic at volume.
+  * "stub": light stand-in agents (own `index`, histories, `mut`, two "weights", deep-copying
+    `clone(index, wrap)`; every other public attribute is answered by a real tiny DQN template),
+    thousands of selections, populations up to 40 (where numpy's argsort is no longer stable), to
+    cover the ranking / draw / index logic at volume.
+
+One case = ONE `TournamentSelection` object: it serves a lineage of 1-50 generations (with fresh
+scores appended, sometimes with the population re-indexed in between) and, in the "session"
+cases, afterwards one to three unrelated populations of other sizes and index ranges.  The model
+is stateless — `max_id` comes from the population at hand — so a selector that remembers anything
+from earlier calls disagrees with it.
 
 The `np.random.randint` draws are recorded through a wrapper during the call and handed to the
 model.  Every agent carries a marker attribute (`verif_tag`) that `clone()` copies, so the parent
@@ -20,7 +27,9 @@ Oracle (independent of Lean), on the implementation's own objects: elite has max
 first member is the elite; every other member's parent is among the drawn ones and no drawn agent
 has a larger mean; indices distinct and fresh; the old population is value-identical (index,
 fitness, scores, steps, weights, forward output) to its snapshot; every member is a faithful copy
-of its parent (weights, forward output, histories) sharing no list / tensor storage with it.
+of its parent (weights, forward output, histories) sharing no list / tensor storage with it; the
+returned objects (elite and every member) are pairwise distinct objects, none is an old population
+member, and changing one (scores, steps, index, mut, a weight) changes no other.
 """
 from __future__ import annotations
 
@@ -45,14 +54,30 @@ PROBE_OBS = torch.tensor([[0.25, -0.5, 1.0], [-0.75, 0.125, 0.5]])
 
 # ----------------------------------------------------------------------------- agents
 class StubAgent:
-    """stand-in offering what `select` touches; `clone` is a deep copy with an optional new index"""
+    """Stand-in agent for the volume stream.  Its own state is what the property talks about
+    (index, fitness, scores, steps, mut, two "weights"); `clone(index=None, wrap=True)` is a deep
+    copy with an optional new index.  Every *other* public attribute a real agent exposes
+    (accelerator, device, algo, lr, batch_size, registry, networks, methods …) is answered by a
+    real tiny DQN kept as class-level template, so a library change that merely reads another
+    ordinary agent attribute inside `select` does not trip this stream."""
+
+    _template = None          # a real EvolvableAlgorithm, set by `Pool.template()`
 
     def __init__(self, seed: int):
         self.index = 0
         self.fitness: list = []
         self.scores: list = []
         self.steps: list = [0]
+        self.mut = None
+        self.accelerator = None
+        self.device = "cpu"
         self.w = [float(seed), float(seed) + 0.5]
+
+    def __getattr__(self, name):
+        # only reached when normal lookup fails
+        if name.startswith("__") or StubAgent._template is None:
+            raise AttributeError(name)
+        return getattr(StubAgent._template, name)
 
     def clone(self, index=None, wrap=True):
         c = copy.deepcopy(self)
@@ -67,15 +92,25 @@ class Pool:
     def __init__(self):
         self.agents: list = []
 
-    def get(self, j: int, net_config=None):
+    @staticmethod
+    def build(seed: int, index: int, net_config=None):
         from gymnasium import spaces
         from agilerl.algorithms.dqn import DQN
+        torch.manual_seed(seed)
+        obs = spaces.Box(-1, 1, (3,), dtype=np.float32)
+        return DQN(obs, spaces.Discrete(2), index=index, net_config=copy.deepcopy(net_config or NET_CONFIG))
+
+    def get(self, j: int, net_config=None):
         while len(self.agents) <= j:
-            torch.manual_seed(7000 + len(self.agents))
-            obs = spaces.Box(-1, 1, (3,), dtype=np.float32)
-            self.agents.append(DQN(obs, spaces.Discrete(2), index=len(self.agents),
-                                   net_config=copy.deepcopy(net_config or NET_CONFIG)))
+            self.agents.append(Pool.build(7000 + len(self.agents), len(self.agents), net_config))
         return self.agents[j]
+
+    @staticmethod
+    def template():
+        """the real agent behind every attribute a stub does not define itself"""
+        if StubAgent._template is None:
+            StubAgent._template = Pool.build(6999, 0)
+        return StubAgent._template
 
 
 def is_stub(a) -> bool:
@@ -102,7 +137,7 @@ def forward_of(a):
 
 def snapshot(a) -> dict:
     return {"index": a.index, "fitness": list(a.fitness), "scores": list(a.scores), "steps": list(a.steps),
-            "tag": getattr(a, TAG, None), "weights": weights_of(a), "fwd": forward_of(a),
+            "mut": a.mut, "tag": getattr(a, TAG, None), "weights": weights_of(a), "fwd": forward_of(a),
             "ids": (id(a.fitness), id(a.scores), id(a.steps))}
 
 
@@ -126,6 +161,8 @@ def snapshot_diff(a, s: dict) -> list[str]:
             out.append(f"{name} {s[name]} -> {list(getattr(a, name))}")
     if (id(a.fitness), id(a.scores), id(a.steps)) != s["ids"]:
         out.append("a history list object was replaced")
+    if a.mut != s["mut"]:
+        out.append(f"mut {s['mut']} -> {a.mut}")
     if getattr(a, TAG, None) != s["tag"]:
         out.append("marker changed")
     if not same_tensors(weights_of(a), s["weights"]):
@@ -173,6 +210,58 @@ def select_once(ts, pop, seed: int):
     return snaps, calls, elite, new
 
 
+def settle_draws(cfg, npop: int, n_new: int, calls: list, seed: int):
+    """the draws each tournament member has to be judged against.  Normally the recorded ones.  If the
+    implementation did not make one `np.random.randint` call of `tournament_size` positions per
+    tournament member (e.g. a shortcut that skips the draw), fall back on the draws the documented
+    protocol — `np.random.randint(0, len(population), size=tournament_size)` per member, in order —
+    yields under this seed.  returns (draws, note or None)"""
+    k, e, n, w = cfg
+    n_kids = max(0, n_new - (1 if e else 0))
+    ok = len(calls) == n_kids and all(len(c) == k and all(0 <= d < npop for d in c) for c in calls)
+    if ok:
+        return calls, None
+    state = np.random.get_state()
+    np.random.seed(seed % (2 ** 32))
+    pred = [[int(v) for v in np.random.randint(0, npop, size=k)] for _ in range(n_kids)]
+    np.random.set_state(state)
+    note = (f"the implementation made {len(calls)} np.random.randint draw(s) of sizes {[len(c) for c in calls][:6]} "
+            f"for {n_kids} tournament member(s) of tournament_size {k}; judged against the draws "
+            f"np.random.randint(0, {npop}, size={k}) yields under the case seed")
+    return pred, note
+
+
+def perturb(o):
+    """change everything a training loop changes on an agent; returns the undo function"""
+    old_index, old_mut = o.index, o.mut
+    o.fitness.append(12345.0)
+    o.scores.append(12345.0)
+    o.steps.append(12345)
+    o.index = old_index + 100000
+    o.mut = "verif-perturbed"
+    if is_stub(o):
+        o.w[0] += 1.0
+        saved = None
+    else:
+        p = next(o.actor.parameters())
+        saved = p.detach().clone()
+        with torch.no_grad():
+            p.add_(1.0)
+
+    def undo():
+        o.fitness.pop()
+        o.scores.pop()
+        o.steps.pop()
+        o.index = old_index
+        o.mut = old_mut
+        if is_stub(o):
+            o.w[0] -= 1.0
+        else:
+            with torch.no_grad():
+                next(o.actor.parameters()).copy_(saved)
+    return undo
+
+
 def copy_problems(label: str, child, parent, psnap: dict) -> list[str]:
     """is `child` a faithful and independent copy of `parent` (whose pre-select snapshot is psnap)"""
     out = []
@@ -181,40 +270,70 @@ def copy_problems(label: str, child, parent, psnap: dict) -> list[str]:
             out.append(f"{label}: {name} {list(getattr(child, name))} is not the parent's {psnap[name]}")
         if getattr(child, name) is getattr(parent, name):
             out.append(f"{label}: shares its {name} list object with the parent")
+    if child.mut != psnap["mut"]:
+        out.append(f"{label}: mut {child.mut!r} is not the parent's {psnap['mut']!r}")
     cw = weights_of(child)
     if not same_tensors(cw, psnap["weights"]):
         out.append(f"{label}: weights differ from the parent's")
     if not same_fwd(forward_of(child), psnap["fwd"]):
         out.append(f"{label}: same weights but the networks compute different outputs than the parent's")
+    if not is_stub(child):
+        mine = {q.data_ptr() for q in child.actor.parameters()}
+        if any(q.data_ptr() in mine for q in parent.actor.parameters()):
+            out.append(f"{label}: shares parameter storage with the parent")
     if out:
         return out
     # independence: changing the copy must not change the parent
-    child.fitness.append(12345.0)
-    child.scores.append(12345.0)
-    if is_stub(child):
-        child.w[0] += 1.0
-        restore = lambda: child.w.__setitem__(0, child.w[0] - 1.0)   # noqa: E731
-    else:
-        p = next(child.actor.parameters())
-        saved = p.detach().clone()
-        with torch.no_grad():
-            p.add_(1.0)
-
-        def restore():
-            with torch.no_grad():
-                p.copy_(saved)
-        if any(q.data_ptr() == p.data_ptr() for q in parent.actor.parameters()):
-            out.append(f"{label}: shares parameter storage with the parent")
+    undo = perturb(child)
     d = snapshot_diff(parent, psnap)
     if d:
         out.append(f"{label}: changing the copy changed the parent ({'; '.join(d)})")
-    child.fitness.pop()
-    child.scores.pop()
-    restore()
+    undo()
     return out
 
 
-def oracle(cfg, pop, snaps, calls, elite, new) -> tuple[list[str], list[str]]:
+def sibling_problems(objs: list) -> list[str]:
+    """the objects `select` returns (elite + every member) are independent of one another:
+    no shared history list / parameter storage, and changing one changes no other"""
+    out = []
+    for name in ("fitness", "scores", "steps"):
+        seen: dict = {}
+        for label, o in objs:
+            k = id(getattr(o, name))
+            if k in seen:
+                out.append(f"{seen[k]} and {label} share one {name} list object")
+            seen.setdefault(k, label)
+    seen = {}
+    for label, o in objs:
+        if is_stub(o):
+            k = [id(o.w)]
+        else:
+            k = [q.data_ptr() for q in o.actor.parameters()]
+        for x in k:
+            if x in seen and seen[x] != label:
+                out.append(f"{seen[x]} and {label} share weight storage")
+                break
+            seen.setdefault(x, label)
+    if out:
+        return out
+    snaps = [snapshot(o) for _, o in objs]
+    n = len(objs)
+    picks = range(n) if n <= 8 else sorted({0, 1, 2, n // 3, n // 2, n - 1})
+    for i in picks:
+        label, o = objs[i]
+        undo = perturb(o)
+        for j, (l2, o2) in enumerate(objs):
+            if j != i:
+                d = snapshot_diff(o2, snaps[j])
+                if d:
+                    out.append(f"changing {label} (scores, index, mut, a weight) changed {l2}: {'; '.join(d)}")
+        undo()
+        if out:
+            break
+    return out
+
+
+def oracle(cfg, pop, snaps, calls, elite, new, draw_note=None) -> tuple[list[str], list[str]]:
     """the property on the implementation's own objects; returns (problems, tags)"""
     k, e, n, w = cfg
     problems, tags = [], []
@@ -226,6 +345,21 @@ def oracle(cfg, pop, snaps, calls, elite, new) -> tuple[list[str], list[str]]:
     def parent_of(obj):
         t = getattr(obj, TAG, None)
         return t if isinstance(t, int) and 0 <= t < len(pop) else None
+
+    # every returned agent is an object of its own, and none is an old population member
+    objs = [("the returned elite", elite)] + [(f"new_population[{j}]", c) for j, c in enumerate(new)]
+    for i in range(len(objs)):
+        for j in range(i + 1, len(objs)):
+            if objs[i][1] is objs[j][1]:
+                what = "elite" if i == 0 else objs[i][0]
+                problems.append(f"{what} is the same object as {objs[j][0]}: whatever happens to one of them "
+                                f"(training, scoring, mutation) happens to the other")
+    for label, o in objs:
+        for j, a in enumerate(pop):
+            if o is a:
+                problems.append(f"{label} is the very object population[{j}] of the old population, not a copy")
+    if problems:
+        return problems, tags
 
     # elite = copy of an agent with maximal mean
     te = parent_of(elite)
@@ -250,8 +384,6 @@ def oracle(cfg, pop, snaps, calls, elite, new) -> tuple[list[str], list[str]]:
         else:
             if new[0].index != snaps[te]["index"]:
                 problems.append(f"elitism: first member has index {new[0].index}, the elite has {snaps[te]['index']}")
-            if new[0] is elite:
-                problems.append("elitism: first member is the very object returned as elite")
             problems += copy_problems("member 0 (elite slot)", new[0], pop[te], snaps[te])
     # tournament children
     kids = new[off:]
@@ -266,10 +398,12 @@ def oracle(cfg, pop, snaps, calls, elite, new) -> tuple[list[str], list[str]]:
             if len(set(drawn)) > 1:
                 tags.append("tournament-distinct-drawn")
             if tp not in drawn:
-                problems.append(f"member {off + t}: parent (position {tp}) is not among the drawn {drawn}")
+                problems.append(f"member {off + t}: parent (position {tp}) is not among the drawn {drawn}"
+                                + (f" [{draw_note}]" if draw_note else ""))
             elif evaluated:
                 if any(keys[tp] < keys[d] for d in drawn):
-                    problems.append(f"member {off + t}: parent's mean {show_key(keys[tp])} is below a drawn agent's "
+                    problems.append((f"[{draw_note}] " if draw_note else "") +
+                                    f"member {off + t}: parent's mean {show_key(keys[tp])} is below a drawn agent's "
                                     f"({[show_key(keys[d]) for d in drawn]})")
                 if sum(1 for d in set(drawn) if keys[d] == keys[tp]) > 1:
                     tags.append("tie-among-drawn")
@@ -282,12 +416,9 @@ def oracle(cfg, pop, snaps, calls, elite, new) -> tuple[list[str], list[str]]:
     for t, ch in enumerate(kids):
         if not ch.index > old_max:
             problems.append(f"member {off + t} got index {ch.index}, not above the old indices (max {old_max})")
-    # objects
-    objs = [elite] + list(new)
-    if len({id(o) for o in objs}) != len(objs):
-        problems.append("two returned agents are the same object")
-    if any(o is a for o in objs for a in pop):
-        problems.append("a returned agent is an object of the old population")
+    # the returned agents are independent of one another
+    if not problems:
+        problems += sibling_problems(objs)
     # old population untouched
     for j, (a, s) in enumerate(zip(pop, snaps)):
         d = snapshot_diff(a, s)
@@ -340,42 +471,80 @@ VALUE_POOLS = {
 }
 
 
-def gen_case(rng: random.Random, kind: str, tier: str, chain: bool = False) -> dict:
-    if kind == "real":
-        npop = rng.choice([1, 2, 2, 3, 3, 4, 4, 5, 6]) if not chain else 2
-    else:
-        npop = rng.choice([1, 2, 3, 4, 5, 6, 8, 10, 12]) if rng.random() < 0.85 else rng.choice([17, 24, 40])
-        if chain:
-            npop = rng.choice([2, 3, 4, 6])
-    n = npop if rng.random() < 0.7 else rng.randint(1, npop + 3)
-    if kind == "real":
-        n = min(n, 6)
-    k = rng.randint(1, npop + 2) if rng.random() < 0.8 else rng.choice([1, 2, 3])
-    w = rng.choice([1, 2, 3, 4])
-    e = rng.random() < 0.6
-    pool = VALUE_POOLS[rng.choice(["small-int", "small-int", "binary", "const", "quarters", "wide"])]
+def gen_agents(rng: random.Random, npop: int, w: int, pool: list, style: str, with_empty: bool = False) -> list:
+    """one population: fitness histories from `pool`, indices according to `style`"""
     same_len = rng.random() < 0.3
     base_len = rng.randint(1, w + 2)
-    with_empty = rng.random() < 0.06 and not chain
-    style = rng.random()
-    if style < 0.6:
+    if style == "low":
         indices = list(range(npop))
         rng.shuffle(indices)
-    elif style < 0.8:
+    elif style == "offset":
         off = rng.randint(1, 500)
         indices = rng.sample(range(off, off + 3 * npop + 2), npop)
-    else:
+    elif style == "high":
+        off = rng.randint(1000, 5000)
+        indices = rng.sample(range(off, off + 2 * npop + 2), npop)
+    else:   # "mixed": negative, sparse
         indices = rng.sample(range(-20, 60), npop)
     agents = []
     for j in range(npop):
         ln = base_len if same_len else rng.randint(1, w + 2)
-        fit = [str(rng.choice(pool)) for _ in range(ln)]
-        agents.append({"index": indices[j], "fitness": fit})
+        agents.append({"index": indices[j], "fitness": [str(rng.choice(pool)) for _ in range(ln)]})
     if with_empty:
         agents[rng.randrange(npop)]["fitness"] = []
+    return agents
+
+
+def gen_case(rng: random.Random, kind: str, tier: str, chain: bool = False, session: bool = False) -> dict:
+    """a case = one TournamentSelection object serving one or several populations ("agents"/"gens"
+    and the further segments in "more"); in chains the population may be re-indexed between
+    generations ("reindex" = probability per generation)"""
+    if kind == "real":
+        npop = rng.choice([1, 2, 2, 3, 3, 4, 4, 5, 6]) if not (chain or session) else rng.choice([2, 3])
+        if chain:
+            npop = 2
+    else:
+        npop = rng.choice([1, 2, 3, 4, 5, 6, 8, 10, 12]) if rng.random() < 0.85 else rng.choice([17, 24, 40])
+        if chain or session:
+            npop = rng.choice([2, 3, 4, 6])
+    n = npop if rng.random() < 0.7 else rng.randint(1, npop + 3)
+    if kind == "real":
+        n = min(n, 6 if not session else 3)
+    k = rng.randint(1, npop + 2) if rng.random() < 0.8 else rng.choice([1, 2, 3])
+    w = rng.choice([1, 2, 3, 4])
+    e = rng.random() < 0.6
+    pool = VALUE_POOLS[rng.choice(["small-int", "small-int", "binary", "const", "quarters", "wide"])]
+    style = rng.choices(["low", "offset", "mixed", "high"], [60, 20, 15, 5])[0]
+    agents = gen_agents(rng, npop, w, pool, style, with_empty=(rng.random() < 0.06 and not chain and not session))
     gens = 1 if not chain else (rng.randint(20, 24) if tier == "quick" else rng.randint(30, 50))
-    return {"kind": kind, "cfg": [k, e, n, w], "agents": agents, "seed": rng.randrange(1 << 30),
+    case = {"kind": kind, "cfg": [k, e, n, w], "agents": agents, "seed": rng.randrange(1 << 30),
             "gens": gens, "pool": [str(v) for v in pool]}
+    if chain and rng.random() < 0.5:
+        case["reindex"] = 0.3
+    if session:
+        # the same selector is afterwards handed unrelated populations: other sizes, other index ranges
+        # (above, below, overlapping what it has seen and handed out before)
+        more = []
+        for _ in range(rng.randint(1, 3) if kind == "stub" else 1):
+            m = rng.choice([1, 2, 3, 4, 6]) if kind == "stub" else rng.choice([2, 3])
+            st = rng.choice(["low", "offset", "mixed", "high"])
+            more.append({"agents": gen_agents(rng, m, w, pool, st), "gens": rng.choice([1, 1, 2, 3]) if kind == "stub" else 1})
+        case["more"] = more
+        case["gens"] = rng.choice([1, 1, 2, 3]) if kind == "stub" else 1
+        if rng.random() < 0.3:
+            case["reindex"] = 0.5
+    return case
+
+
+def segments_of(case: dict) -> list:
+    return [{"agents": case["agents"], "gens": case.get("gens", 1)}] + list(case.get("more", []))
+
+
+def with_segments(case: dict, segs: list) -> dict:
+    c = dict(case)
+    c["agents"], c["gens"] = segs[0]["agents"], segs[0]["gens"]
+    c["more"] = [dict(x) for x in segs[1:]]
+    return c
 
 
 def implementation_rank(ts, pop):
@@ -397,9 +566,23 @@ def implementation_rank(ts, pop):
         return None, []
 
 
+def build_population(kind: str, specs: list, pool: Pool) -> list:
+    pop = []
+    for j, spec in enumerate(specs):
+        a = pool.get(j) if kind == "real" else StubAgent(j)
+        a.index = int(spec["index"])
+        a.fitness = [float(Fraction(s)) for s in spec["fitness"]]
+        a.scores = [float(j), float(-j)]
+        a.steps = [0, 10 * j]
+        a.mut = None
+        setattr(a, TAG, j)
+        pop.append(a)
+    return pop
+
+
 def run_case(case: dict, pool: Pool):
-    """runs all generations of a case on the real implementation.
-    returns (impl_lines, model_op_lines, problems, tags)"""
+    """runs every population / generation of a case through ONE selector object of the real
+    implementation.  returns (impl_lines, model_op_lines, problems, tags)"""
     from agilerl.hpo.tournament import TournamentSelection
     k, e, n, w = case["cfg"]
     cfg = (int(k), bool(e), int(n), int(w))
@@ -408,56 +591,71 @@ def run_case(case: dict, pool: Pool):
         ts = TournamentSelection(cfg[0], cfg[1], cfg[2], cfg[3])
     except AssertionError:
         return ["reject"], [f"tourn cfg {cfg[0]} {1 if cfg[1] else 0} {cfg[2]} {cfg[3]}"], [], ["ctor-reject"]
-    pop = []
-    for j, spec in enumerate(case["agents"]):
-        a = pool.get(j) if case["kind"] == "real" else StubAgent(j)
-        a.index = int(spec["index"])
-        a.fitness = [float(Fraction(s)) for s in spec["fitness"]]
-        a.scores = [float(j), float(-j)]
-        a.steps = [0, 10 * j]
-        setattr(a, TAG, j)
-        pop.append(a)
-    if not pop:
+    if case["kind"] == "stub":
+        Pool.template()
+    segments = segments_of(case)
+    if not segments[0]["agents"] and len(segments) == 1:
         try:
-            ts.select(pop)
+            ts.select([])
             impl_line = "no-error"
         except Exception:
             impl_line = "reject"
         return (["ok", impl_line], [f"tourn cfg {cfg[0]} {1 if cfg[1] else 0} {cfg[2]} {cfg[3]}", "tourn select"],
                 [], ["empty-population"])
     values = [Fraction(v) for v in case.get("pool", ["0", "1"])]
+    reindex_p = float(case.get("reindex", 0))
     tags.append("elitism-on" if cfg[1] else "elitism-off")
     tags.append(f"kind-{case['kind']}")
-    if cfg[0] > len(pop):
-        tags.append("tsize>population")
-    if cfg[2] != len(pop):
-        tags.append("len(pop)!=population_size")
-    if any(len(s["fitness"]) < cfg[3] for s in case["agents"]):
-        tags.append("history-shorter-than-window")
-    if len({len(s["fitness"]) for s in case["agents"]}) > 1:
-        tags.append("unequal-lengths")
-    if any(Fraction(v) < 0 for s in case["agents"] for v in s["fitness"]):
-        tags.append("negative-scores")
-    if case["gens"] > 1:
-        tags.append("chain")
-    for g in range(case["gens"]):
-        rank, rank_line = implementation_rank(ts, pop)
-        snaps, calls, elite, new = select_once(ts, pop, case["seed"] + g)
-        impl += ["ok"] * (1 + len(snaps)) + rank_line + [canonical(cfg, pop, snaps, elite, new)]
-        ops += model_lines(cfg, snaps, calls, rank)
-        p, t = oracle(cfg, pop, snaps, calls, elite, new)
-        problems += [f"generation {g}: {x}" for x in p] if case["gens"] > 1 else p
-        tags += t
-        if p:
-            break
-        # next generation: the children are evaluated again (most of them), indices untouched
-        if g + 1 < case["gens"]:
-            r = random.Random(case["seed"] * 31 + g)
-            pop = list(new)
-            for j, a in enumerate(pop):
-                setattr(a, TAG, j)
-                if r.random() < 0.9:
-                    a.fitness.append(float(r.choice(values)))
+    if len(segments) > 1:
+        tags.append("selector-reused-on-unrelated-population")
+    many = len(segments) > 1 or any(sg["gens"] > 1 for sg in segments)
+    for si, seg in enumerate(segments):
+        specs = seg["agents"]
+        if not specs:
+            continue
+        pop = build_population(case["kind"], specs, pool)
+        if cfg[0] > len(pop):
+            tags.append("tsize>population")
+        if cfg[2] != len(pop):
+            tags.append("len(pop)!=population_size")
+        if any(len(s["fitness"]) < cfg[3] for s in specs):
+            tags.append("history-shorter-than-window")
+        if len({len(s["fitness"]) for s in specs}) > 1:
+            tags.append("unequal-lengths")
+        if any(Fraction(v) < 0 for s in specs for v in s["fitness"]):
+            tags.append("negative-scores")
+        if seg["gens"] > 1:
+            tags.append("chain")
+        for g in range(seg["gens"]):
+            rank, rank_line = implementation_rank(ts, pop)
+            sseed = case["seed"] + 1000 * si + g
+            snaps, calls, elite, new = select_once(ts, pop, sseed)
+            calls, draw_note = settle_draws(cfg, len(pop), len(new), calls, sseed)
+            if draw_note:
+                tags.append("draws-predicted-from-seed")
+            impl += ["ok"] * (1 + len(snaps)) + rank_line + [canonical(cfg, pop, snaps, elite, new)]
+            ops += model_lines(cfg, snaps, calls, rank)
+            p, t = oracle(cfg, pop, snaps, calls, elite, new, draw_note)
+            where = (f"population {si}, " if len(segments) > 1 else "") + f"generation {g}: "
+            problems += [where + x for x in p] if many else p
+            tags += t
+            if p:
+                return impl, ops, problems, tags
+            # next generation: the children are evaluated again (most of them); their indices are
+            # kept, or - `reindex` - replaced by unrelated ones (restored / re-numbered population)
+            if g + 1 < seg["gens"]:
+                r = random.Random(case["seed"] * 31 + 1000 * si + g)
+                pop = list(new)
+                for j, a in enumerate(pop):
+                    setattr(a, TAG, j)
+                    if r.random() < 0.9:
+                        a.fitness.append(float(r.choice(values)))
+                if r.random() < reindex_p:
+                    base = r.choice([-50, 0, 3, 40, 700, 9000])
+                    fresh = r.sample(range(base, base + 2 * len(pop) + 1), len(pop))
+                    for a, ix in zip(pop, fresh):
+                        a.index = ix
+                    tags.append("reindexed-between-generations")
     return impl, ops, problems, tags
 
 
@@ -502,28 +700,45 @@ def shrink(chk: Check, case: dict, pool: Pool, by_oracle: bool) -> dict:
     def fails_case(c):
         d, p, *_ = evaluate(chk, [c], pool)[0]
         return bool(p) if by_oracle else d is not None
+
+    def fails_segs(segs):
+        return bool(segs) and bool(segs[0]["agents"]) and fails_case(with_segments(small, segs))
     small = dict(case)
-    # fewer generations: stop right after the first failing one
-    if case["gens"] > 1:
-        for g in range(1, case["gens"] + 1):
-            cand = dict(case, gens=g)
-            if fails_case(cand):
-                small = cand
+    if small.get("reindex") and fails_case(dict(small, reindex=0)):
+        small = dict(small, reindex=0)
+    segs = [dict(x) for x in segments_of(small)]
+    # fewer populations served by the selector
+    if len(segs) > 1:
+        segs = ddmin(segs, fails_segs)
+        if not fails_segs(segs):
+            segs = [dict(x) for x in segments_of(small)]
+    # fewer generations per population
+    for i in range(len(segs)):
+        for g in range(1, segs[i]["gens"]):
+            cand = [dict(x) for x in segs]
+            cand[i]["gens"] = g
+            if fails_segs(cand):
+                segs = cand
                 break
-    if small["gens"] == 1 and len(small["agents"]) > 1:
-        agents = ddmin(small["agents"], lambda sub: fails_case(dict(small, agents=sub)))
-        small = dict(small, agents=agents)
-        # shorter histories
-        for j in range(len(small["agents"])):
-            fit = small["agents"][j]["fitness"]
-            while len(fit) > 1:
-                cand_agents = [dict(a) for a in small["agents"]]
-                cand_agents[j]["fitness"] = fit[1:]
-                if not fails_case(dict(small, agents=cand_agents)):
+    # fewer agents, shorter histories
+    for i in range(len(segs)):
+        if len(segs[i]["agents"]) > 1:
+            def fails_agents(sub, i=i):
+                cand = [dict(x) for x in segs]
+                cand[i]["agents"] = sub
+                return fails_segs(cand)
+            sub = ddmin(segs[i]["agents"], fails_agents)
+            if fails_agents(sub):
+                segs[i]["agents"] = sub
+        for j in range(len(segs[i]["agents"])):
+            while len(segs[i]["agents"][j]["fitness"]) > 1:
+                cand = [dict(x) for x in segs]
+                cand[i]["agents"] = [dict(a) for a in segs[i]["agents"]]
+                cand[i]["agents"][j]["fitness"] = segs[i]["agents"][j]["fitness"][1:]
+                if not fails_segs(cand):
                     break
-                small = dict(small, agents=cand_agents)
-                fit = fit[1:]
-    return small
+                segs = cand
+    return with_segments(small, segs)
 
 
 def report(chk: Check, case: dict, pool: Pool, diff, problems, impl, model) -> None:
@@ -593,8 +808,9 @@ def run(chk: Check) -> None:
                 "agents (1-40), tournament size 1..len+2 (also > population), window 1-4, elitism on/off, "
                 "population_size equal to or different from len(population); integer / quarter-valued fitness "
                 "histories with many ties, negatives, unequal lengths, shorter than the window, sometimes empty; "
-                "recorded np.random.randint draws replayed in the model; chains of 20-50 generations with fresh "
-                "scores appended; distinct = distinct case; non-trivial = a tournament drew two different agents "
+                "recorded np.random.randint draws replayed in the model; one selector object per case: chains of "
+                "20-50 generations with fresh scores appended (half of them with re-indexing in between) and "
+                "sessions in which the same selector then serves 1-3 unrelated populations; distinct = distinct case; non-trivial = a tournament drew two different agents "
                 "or the top mean is tied")
     chk.assumptions = [
         "fitness scores in the correspondence are small integers or quarters, so float sums are exact and the "
@@ -617,6 +833,11 @@ def run(chk: Check) -> None:
         cases.append(gen_case(rng, "stub", chk.tier))
     for _ in range(n_chain_stub):
         cases.append(gen_case(rng, "stub", chk.tier, chain=True))
+    n_sess_real, n_sess_stub = (5, 200) if quick else (40, 2000)
+    for _ in range(n_sess_real):
+        cases.append(gen_case(rng, "real", chk.tier, session=True))
+    for _ in range(n_sess_stub):
+        cases.append(gen_case(rng, "stub", chk.tier, session=True))
     # rejected inputs: the constructor's assertions and the empty population
     for bad in ([0, True, 3, 2], [2, True, 0, 2], [2, False, 3, 0]):
         cases.append({"kind": "stub", "cfg": bad, "agents": [{"index": 0, "fitness": ["1"]}], "seed": 1, "gens": 1})
@@ -632,9 +853,12 @@ def run(chk: Check) -> None:
         for case, (diff, problems, tags, impl, model) in zip(batch, evaluate(chk, batch, pool)):
             count[case["kind"]] += 1
             nontrivial = any(t in ("tournament-distinct-drawn", "tie-at-top") for t in tags)
-            key = [case["kind"], case["cfg"], case["agents"], case["seed"], case["gens"]]
+            key = [case["kind"], case["cfg"], case["agents"], case["seed"], case["gens"], case.get("more"),
+                   case.get("reindex")]
             sample = {"kind": case["kind"], "cfg(tsize,elitism,popsize,window)": case["cfg"],
-                      "agents": case["agents"][:4], "gens": case["gens"], "observed": impl[-1][:160] if impl else None}
+                      "agents": case["agents"][:4], "gens": case["gens"],
+                      "further_populations_same_selector": len(case.get("more", [])),
+                      "observed": impl[-1][:160] if impl else None}
             chk.case(key, nontrivial=nontrivial, sample=sample, tags=sorted(set(tags)))
             if diff is None and not problems:
                 continue
@@ -706,6 +930,34 @@ def selftest(chk: Check, pool: Pool) -> None:
         population[0].fitness.append(0.0)                                # fault: old population altered
         return r
 
+    def select_with_id_counter(self, population):
+        elite, new = orig_select(self, population)
+        if not hasattr(self, "_verif_ctr"):                              # fault: max_id scanned only once,
+            self._verif_ctr = max(i.index for i in population)           # numbering continues from a counter
+        for ch in new[(1 if self.elitism else 0):]:
+            self._verif_ctr += 1
+            ch.index = self._verif_ctr
+        return elite, new
+
+    def select_elite_is_member0(self, population):
+        elite, new = orig_select(self, population)
+        if self.elitism and new:
+            new[0] = elite                                               # fault: one object in two roles
+        return elite, new
+
+    def select_elite_uncloned(self, population):
+        elite, new = orig_select(self, population)
+        if not self.elitism:
+            elite = population[getattr(elite, TAG)]                      # fault: the old member itself
+        return elite, new
+
+    def select_siblings_share_scores(self, population):
+        elite, new = orig_select(self, population)
+        if len(new) > 1:
+            new[-1].scores = new[0].scores                               # fault: two members share a list
+        return elite, new
+
+    session_cases = [gen_case(rng, "stub", "quick", session=True) for _ in range(60)]
     orig_clone = EvolvableAlgorithm.clone
 
     def aliasing_clone(self, index=None, wrap=True):
@@ -720,6 +972,11 @@ def selftest(chk: Check, pool: Pool) -> None:
         ("elite not first", TS, "select", select_elite_last, stub_cases),
         ("select alters the old population", TS, "select", select_touching_parents, stub_cases[:10]),
         ("clone shares the fitness list", EvolvableAlgorithm, "clone", aliasing_clone, [real_case]),
+        ("selector numbers children from a counter kept across calls", TS, "select", select_with_id_counter,
+         session_cases),
+        ("elite and new_population[0] are one object", TS, "select", select_elite_is_member0, stub_cases + [real_case]),
+        ("elite is the old member itself when elitism is off", TS, "select", select_elite_uncloned, stub_cases),
+        ("two members share their scores list", TS, "select", select_siblings_share_scores, stub_cases + [real_case]),
     ]
     for name, owner, attr, fn, cases in faults:
         orig = getattr(owner, attr)
@@ -734,7 +991,7 @@ def selftest(chk: Check, pool: Pool) -> None:
             raise InfraError(f"C05 self-test: seeded fault '{name}' was not noticed by the oracle")
         chk.notes.append(f"self-test: '{name}' noticed (oracle {by_oracle}/{len(res)} cases, model diff {by_diff}/{len(res)})")
     # and the unpatched implementation is clean on the same cases
-    res = evaluate(chk, stub_cases[:20] + [real_case], pool)
+    res = evaluate(chk, stub_cases[:20] + session_cases[:20] + [real_case], pool)
     if any(p or d is not None for d, p, *_ in res):
         raise InfraError("C05 self-test: the restored implementation is flagged on the self-test cases")
 
